@@ -753,3 +753,78 @@ def ob_issuer_view(fns):
 
 
 ISSUING = [ob_issuer_view]
+
+
+# ------------------------------------------------------------------------------------------ KeyPair::sign (ring build)
+
+def ob_sign_arms(fns):
+    ob = Obligation("sign_arms", "KeyPair::sign, every key kind (Ec, Ed, Rsa, Remote): the back end is asked exactly once to sign exactly the message passed "
+                                 "in; the BIT STRING written holds exactly the back end's output with bit length 8 x its byte length; a back-end error is "
+                                 "returned as Err and nothing is written",
+                    ["KeyPair::sign (default features: ring back end as uninterpreted environment)"])
+    eng, models = setup(fns)
+    f = find(fns, r"::sign$", r"^&key_pair::KeyPair$|^&KeyPair$")
+    d = z3.Int("kind_discr")
+    remote_box = Agg("Box", [Cell(Agg("Unique", [Cell(Ref(Cell(Opaque("remote", "remote"))))]))])
+    kind = E.EnumV("KeyPairKind", d, [("Ec", [Opaque("EcdsaKeyPair", "ec-key")]), ("Ed", [Opaque("Ed25519KeyPair", "ed-key")]),
+                                      ("Rsa", [Opaque("RsaKeyPair", "rsa-key"), Ref(Cell(Opaque("padding", "padding")))]), ("Remote", [remote_box])])
+    key = Agg("KeyPair", [Cell(kind), Cell(Opaque("alg")), Cell(Opaque("serialized_der", "SECRET"))])
+    msg = Opaque("msg", "MSG")
+    st = State()
+    st.pc += [d >= 0, d <= 3]
+    seen = {}
+    for (s2, ret) in eng.run_fn(f, [Ref(Cell(key)), msg, Opaque("writer")], st):
+        ob.paths += 1
+        sol = z3.Solver()
+        sol.add(*s2.pc)
+        if sol.check() != z3.sat:
+            continue
+        ob.reach = True
+        k = sol.model().eval(d, model_completion=True).as_long()
+        signs = [e for e in s2.events if e[0] == "backend-sign"]
+        writes = [e for e in s2.events if e[0] == "call" and e[1] == "write_bitvec_bytes"]
+        is_err = isinstance(ret, Agg) and ret.kind.startswith("variant:1")
+        want_kind = ["Ec", "Ed", "Rsa", "Remote"][k]
+        bad = None
+        if len(signs) != 1 or signs[0][1] != want_kind:
+            bad = f"{want_kind}: back end called {len(signs)} time(s) / wrong back end"
+        elif not (isinstance(signs[0][2], Opaque) and signs[0][2].data == "MSG"):
+            bad = f"{want_kind}: the message handed to the back end is not the message passed to sign()"
+        elif is_err and writes:
+            bad = f"{want_kind}: something is written although the back end failed"
+        elif not is_err and check_valid(ob, s2.pc, signs[0][3], f"sign/{want_kind}/ok-implies-backend-ok") not in (None, "infeasible"):
+            bad = f"{want_kind}: returns Ok although the back end reported an error"
+        elif not is_err:
+            if len(writes) != 1:
+                bad = f"{want_kind}: {len(writes)} BIT STRING writes on the Ok path"
+            else:
+                (bkind, bdata), (lkind, ldata) = writes[0][2][0], writes[0][2][1]
+                src = {"Ec": "Ec-output", "Ed": "Ed-output", "Remote": "Remote-output"}.get(want_kind)
+                flat = repr(bdata)
+                if want_kind == "Rsa":
+                    ok_bytes = "zeroed" in flat      # the buffer the back end filled
+                    n = z3.Int("rsa_modulus_len")
+                else:
+                    ok_bytes = src in flat
+                    n = z3.Int("len_" + src)
+                if not ok_bytes:
+                    bad = f"{want_kind}: the BIT STRING does not hold the back end's output ({flat[:120]})"
+                elif lkind != "term":
+                    bad = f"{want_kind}: bit length is not a term"
+                else:
+                    r = check_valid(ob, s2.pc, ldata == 8 * n, f"sign/{want_kind}/bitlen")
+                    if r is not None and r != "infeasible":
+                        bad = f"{want_kind}: bit length differs from 8 x byte length"
+        if bad:
+            ob.result, ob.cex = "fail", {"op": "sign-arm", "note": bad}
+            return ob
+        seen.setdefault(k, set()).add("err" if is_err else "ok")
+    want = {0: {"ok", "err"}, 1: {"ok"}, 2: {"ok", "err"}, 3: {"ok", "err"}}
+    if seen != want:
+        ob.result, ob.reason = "inconclusive", f"paths reached per kind: {seen}"
+        return ob
+    ob.result = "pass"
+    return ob
+
+
+SIGNING = [ob_sign_arms]
